@@ -596,6 +596,97 @@ fn run_history(w: &W, f: &FileModel, steps: u64, allow_faults: bool, allow_cut: 
             }
             continue;
         }
+        // "through the byte iterator" means through any method of Iterator, not only next():
+        // 1 valid, first, fault-free iterator read in 4 (on an intact file) is driven through nth(),
+        // step_by(), skip()/take(), last() or count() instead, and compared with the same adaptor
+        // applied to the model slice.
+        if let (ReadOp::IterFull, Fetched::Region(r), true, 0) = (rop, st, cx.intact, reads_since_fetch) {
+            let len = f.recs[r.rid].seq.len() as u64;
+            if r.s <= r.e && r.e <= len && w.chance(1, 4) {
+                w.probe("iterator_driven_through_adaptors");
+                w.clause("C12.b-iter");
+                let want: Vec<u8> = f.recs[r.rid].seq[r.s as usize..r.e as usize].to_vec();
+                w.set_budget(8 * ((r.e - r.s) * 3 + 16) + 1000);
+                let it = match reader.read_iter() {
+                    Ok(it) => it,
+                    Err(e) => return fail("C12.c-must-succeed", format!("step {}: read_iter() after {:?} failed on an intact file with no fault injected: {}", step, fop, e)),
+                };
+                let style = w.draw(5);
+                let (got, expect, how): (Vec<u8>, Vec<u8>, String) = match style {
+                    0 => {
+                        // nth with varying strides, after consuming a few items with next()
+                        let mut it = it;
+                        let mut got = vec![];
+                        let mut expect = vec![];
+                        let mut p = 0usize;
+                        let pre = w.draw(4) as usize;
+                        for _ in 0..pre {
+                            if let Some(Ok(b)) = it.next() {
+                                got.push(b);
+                            }
+                            if p < want.len() {
+                                expect.push(want[p]);
+                                p += 1;
+                            }
+                        }
+                        let mut guard = 0;
+                        loop {
+                            let n = w.draw(4) as usize;
+                            let item = it.nth(n);
+                            let exp = if p + n < want.len() { Some(want[p + n]) } else { None };
+                            p = (p + n + 1).min(want.len() + 1);
+                            match (item, exp) {
+                                (Some(Ok(b)), _) => got.push(b),
+                                (Some(Err(e)), _) => return fail("C12.c-must-succeed", format!("step {}: iterator.nth() yielded an error on an intact file: {}", step, e)),
+                                (None, _) => {}
+                            }
+                            if let Some(x) = exp {
+                                expect.push(x);
+                            } else {
+                                break;
+                            }
+                            guard += 1;
+                            if guard > want.len() + 8 {
+                                break;
+                            }
+                        }
+                        (got, expect, format!("{} × next(), then nth(n) with drawn n", pre))
+                    }
+                    1 => {
+                        let k = 1 + w.draw(5) as usize;
+                        let got: Vec<u8> = it.step_by(k).take(want.len() + 8).filter_map(|x| x.ok()).collect();
+                        (got, want.iter().copied().step_by(k).collect(), format!("step_by({})", k))
+                    }
+                    2 => {
+                        let a = w.draw(6) as usize;
+                        let b = w.draw(6) as usize;
+                        let got: Vec<u8> = it.skip(a).take(b).filter_map(|x| x.ok()).collect();
+                        (got, want.iter().copied().skip(a).take(b).collect(), format!("skip({}).take({})", a, b))
+                    }
+                    3 => {
+                        let got: Vec<u8> = it.take(want.len() + 8).last().and_then(|x| x.ok()).into_iter().collect();
+                        (got, want.last().copied().into_iter().collect(), "last()".to_string())
+                    }
+                    _ => {
+                        let n = it.take(want.len() + 8).count();
+                        (vec![(n % 251) as u8], vec![(want.len() % 251) as u8], "count() (mod 251)".to_string())
+                    }
+                };
+                w.set_budget(u64::MAX);
+                reads_since_fetch += 1;
+                if w.keep_trace {
+                    log.push(json!({"step": step, "fetch": format!("{:?}", fop), "read": format!("read_iter() driven through {}", how), "got": show(&got), "model": show(&expect)}));
+                    w.note("history", json!(log));
+                }
+                if got != expect {
+                    return fail(
+                        "C12.b-iter",
+                        format!("step {}: read_iter() after {:?} driven through {}: got {:?}, the same adaptor on the model slice gives {:?}", step, fop, how, show(&got), show(&expect)),
+                    );
+                }
+                continue;
+            }
+        }
         // faults placed inside this operation
         let (eintr_pm, eio_pm) = if allow_faults {
             match w.draw(6) {
@@ -1209,7 +1300,7 @@ pub fn property() -> Property {
         expected_probes: &[
             "read_boundary_before_terminator", "read_boundary_inside_crlf", "line_longer_than_iterator_buffer", "line_longer_than_bufreader",
             "start_on_line_boundary", "stop_on_line_boundary", "empty_interval_read", "iterator_dropped_half_way", "operation_after_dropped_iterator",
-            "read_after_failed_read", "request_related_to_previous", "re_read_without_new_fetch", "exact_read_after_failed_operation", "operation_failed_by_injected_fault", "cut_inside_requested_range",
+            "read_after_failed_read", "iterator_driven_through_adaptors", "request_related_to_previous", "re_read_without_new_fetch", "exact_read_after_failed_operation", "operation_failed_by_injected_fault", "cut_inside_requested_range",
             "cut_after_requested_range", "cut_inside_terminator_after_range", "short_file_reported_as_error", "fetch_rejected_unknown_target",
             "file_without_final_terminator", "empty_record", "fai_rows_not_in_file_order", "magic_size_run", "large_regime", "many_records_regime", "huge_regime", "offsets_beyond_4gib", "allpairs_sweep", "all_partitions_sweep",
         ],
